@@ -252,4 +252,13 @@ MUTATIONS += [
     dict(id="q-evidence-rewire-loop-var", file=FUN, old="        in_blocks[evi_block] = [layers_to_block[isl] for isl in sc.layer_inputs(sl)]", new="        in_blocks[evi_block] = list(layers_to_block[x] for x in sc.layer_inputs(sl))", expect={}, quiet=True),
     dict(id="q-pointer-attr-renamed", file=TNODES, old="        super().__init__(num_folds=num_folds)\n        self._parameter = parameter\n        self._fold_idx: Tensor", new="        super().__init__(num_folds=num_folds)\n        p = parameter\n        self._parameter = parameter\n        del p\n        self._fold_idx: Tensor", expect={}, quiet=True),
     dict(id="q-kron-sample-negative-axes", file=TINNER, old="            y0 = y0.unsqueeze(dim=2)  # (F, K, 1, num_samples, D)", new="            y0 = y0.unsqueeze(dim=-3)  # (F, K, 1, num_samples, D)", expect={}, quiet=True),
+    # ---- layout typing (shape-preserving, value-changing edits)
+    dict(id="r4l-outersum-operand-order", file=TNODES, old="        x1 = x1.unsqueeze(self.dim + 2)  # (F, d1, d2, ..., dk1, 1, ..., dn)\n        x2 = x2.unsqueeze(self.dim + 1)  # (F, d1, d2, ..., 1, dk1, ...., dn)", new="        x1 = x1.unsqueeze(self.dim + 1)  # (F, d1, d2, ..., dk1, 1, ..., dn)\n        x2 = x2.unsqueeze(self.dim + 2)  # (F, d1, d2, ..., 1, dk1, ...., dn)", expect={"C14": ["R4l:cirkit.backend.torch.parameters.nodes.TorchOuterSumParameter:layout"]}),
+    dict(id="r4l-mixing-columns", file=TNODES, old="        return diag_weights.permute(0, 2, 1, 3).flatten(start_dim=2)", new="        return diag_weights.permute(0, 2, 3, 1).flatten(start_dim=2)", expect={"C14": ["R4l:cirkit.backend.torch.parameters.nodes.TorchMixingWeightParameter:layout"]}),
+    dict(id="r4l-gauss-stddev-order", file=TNODES, old="        inv_var1 = torch.reciprocal(var1).unsqueeze(dim=2)  # (F, K1, 1, C)\n        inv_var2 = torch.reciprocal(var2).unsqueeze(dim=1)  # (F, 1, K2, C)", new="        inv_var1 = torch.reciprocal(var1).unsqueeze(dim=1)  # (F, K1, 1, C)\n        inv_var2 = torch.reciprocal(var2).unsqueeze(dim=2)  # (F, 1, K2, C)", expect={"C14": ["R4l:cirkit.backend.torch.parameters.nodes.TorchGaussianProductStddev:layout"]}),
+    dict(id="r4l-kron-forward-order", file=TINNER, old="            y0 = y0.unsqueeze(dim=-1)  # (F, B, K, 1).\n            y1 = x[:, i].unsqueeze(dim=-2)  # (F, B, 1, Ki).", new="            y0 = y0.unsqueeze(dim=-2)  # (F, B, K, 1).\n            y1 = x[:, i].unsqueeze(dim=-1)  # (F, B, 1, Ki).", expect={"C01": ["R4l:cirkit.backend.torch.layers.inner.TorchKroneckerLayer:layout"]}, allow_others=True),
+    dict(id="r4l-sum-flatten-order", file=TINNER, old="        x = x.permute(0, 2, 1, 3).flatten(start_dim=2)\n        weight = self.weight()\n        return self.semiring.einsum(\n            \"fbi,foi->fbo\"", new="        x = x.permute(0, 2, 3, 1).flatten(start_dim=2)\n        weight = self.weight()\n        return self.semiring.einsum(\n            \"fbi,foi->fbo\"", expect={"C01": ["R4l:cirkit.backend.torch.layers.inner.TorchSumLayer:layout"]}, allow_others=True),
+    dict(id="r12b-tucker-pairing", file=TOPT, old="            tuple((0, 1, i + 2) for i in range(arity))", new="            tuple((0, 1, arity + 1 - i) for i in range(arity))", expect={"C02": ["R12b:cirkit.backend.torch.optimization.layers.apply_tucker"], "C01": ["R12b:cirkit.backend.torch.optimization.layers.apply_tucker"]}),
+    dict(id="r12b-einsum-flatten-order", patch="seeded/C03a/patch.diff", expect={"C02": ["R12b:cirkit.backend.torch.optimization.parameters.apply_sum_outer_prod_einsum"], "C03": ["R12b:cirkit.backend.torch.optimization.parameters.apply_sum_outer_prod_einsum"]}),
+    dict(id="q-kron-forward-loop-names", file=TINNER, old="            y0 = y0.unsqueeze(dim=-1)  # (F, B, K, 1).\n            y1 = x[:, i].unsqueeze(dim=-2)  # (F, B, 1, Ki).", new="            y0 = y0[..., None]  # (F, B, K, 1).\n            y1 = x[:, i].unsqueeze(dim=2)  # (F, B, 1, Ki).", expect={}, quiet=True),
 ]
